@@ -154,3 +154,12 @@ Fixpoint go_loop {S R : Type} (fuel : nat) (cond : S -> gres bool) (body : S -> 
 
 Definition is_out_of_fuel {A} (r : gres A) : bool :=
   match r with GOutOfFuel => true | _ => false end.
+
+(* a generated result of a Go function returning (value, error), as an [outcome]: [f] maps the pair to
+   Ok / Err; panics keep their kind, out of fuel is [Err 1] *)
+Definition to_outcome_with {A B} (f : A -> outcome B) (r : gres A) : outcome B :=
+  match r with
+  | GOk a => f a
+  | GPanic k => Panic k
+  | GOutOfFuel => Err 1%N
+  end.
